@@ -441,6 +441,26 @@ def run(rng, tier, res=None, want=("prim", "fit", "semi")):
                     res.hit("c09_edited_list")
                 except Exception:
                     pass
+            if feature_mode and nq >= 1:
+                # the same ndarray OBJECT handed in twice, its contents replaced in place in between, is new data
+                try:
+                    bufq = np.array(Q, dtype=float).copy()
+                    o.predict(bufq)
+                    import random as _random
+                    r2_ = _random.Random(7919 * case + 13)      # a generator of its own: the main stream of cases is left as it was
+                    Q2 = np.array(Q, dtype=float)[::-1].copy() if (nq >= 2 and r2_.random() < 0.5) else \
+                        np.array([X[r2_.randrange(len(X))] for _ in range(nq)], dtype=float)
+                    bufq[:] = Q2
+                    p_b = o.predict(bufq)
+                    p_c = o.predict(Q2.copy())
+                    if list(p_b) != list(p_c):
+                        m_ = (f"an array whose contents were replaced in place after an earlier predict call on the same array object gives "
+                              f"{list(p_b)}, the same values in a new array {list(p_c)}: the result depends on the call history")
+                        msgs9.append(m_)
+                        viol("C07", [m_], {"stream": "fit", "metric": metric, "Q_first": np.array(Q).tolist(), "Q_second": Q2.tolist()})
+                    res.hit("c09_same_buffer_new_contents")
+                except Exception:
+                    res.hit("c09_same_buffer_raised")
             viol("C09", msgs9, {"stream": "fit", "labels": lab, "Iq": Iq, "M": M.tolist(), "I": I})
             after = (forest_obs(o.subgraph, n), )
             if after[0] != fobs:
